@@ -368,3 +368,91 @@ func verifHarness_C13_text_utf8_across_fragments() {
 	}
 	verifAssert(false, "witness")
 }
+
+// a control frame coalesced with the frame that follows it in the same read
+// (and optionally after a fragment of a message in progress): the pong carries
+// the ping's payload, the close echo the close frame's code, whatever bytes
+// follow in the buffer.
+func verifHarness_C13_control_frame_coalesced_with_next() {
+	verifBound("control_payload_max", 3)
+	client := verifChoose("endpoint_is_client", 2) == 1
+	ep := verifNewEndpoint(client, false, 0, nil)
+	kind := verifChoose("control", 3) // ping, pong, close
+	var op byte
+	var payload []byte
+	switch kind {
+	case 0:
+		op = byte(PingMessage)
+		payload = verifBytes("ctl", verifChoose("ctl_len", 4))
+	case 1:
+		op = byte(PongMessage)
+		payload = verifBytes("ctl", verifChoose("ctl_len", 4))
+	case 2:
+		op = byte(CloseMessage)
+		// a legal code (1000..1003) chosen by the solver, no reason
+		lo := verifByte("code_lo")
+		verifAssume(verifAnd(lo >= 0xE8, lo <= 0xEB))
+		payload = []byte{0x03, lo}
+	}
+	mk := func(b0 byte, p []byte) []byte {
+		f := []byte{b0}
+		if client { // frames from a server are not masked
+			f = append(f, byte(len(p)))
+			return append(f, p...)
+		}
+		key := verifBytes("key", 4)
+		f = append(f, 0x80|byte(len(p)))
+		f = append(f, key...)
+		for i, c := range p {
+			f = append(f, c^key[i&3])
+		}
+		return f
+	}
+	var stream []byte
+	inFragment := verifChoose("inside_fragmented_message", 2) == 1
+	if inFragment {
+		stream = append(stream, mk(byte(TextMessage), []byte("ab"))...)
+	}
+	stream = append(stream, mk(0x80|op, payload)...)
+	next := []byte("xyz")
+	if inFragment {
+		stream = append(stream, mk(0x80, next)...) // final continuation
+	} else {
+		stream = append(stream, mk(0x80|byte(TextMessage), next)...)
+	}
+	err := ep.c.Parse(stream)
+	failed := verifProtocolFailure(ep, err)
+	if kind == 2 {
+		// answered by a close frame carrying the same code (whether a data frame
+		// sent after the peer's close is still delivered is not part of C13)
+		got := false
+		for _, w := range ep.fake.writes {
+			f := verifDecodeFrame(w)
+			if f.ok && f.opcode == int(CloseMessage) {
+				got = true
+				verifAssertD(len(f.payload) >= 2 && f.payload[0] == 0x03 && f.payload[1] == payload[1], "close-echo-carries-the-close-code", "coalesced")
+			}
+		}
+		verifAssertD(got, "close-answered-by-close", "coalesced")
+		verifAssert(false, "witness")
+		return
+	}
+	verifAssertD(!failed, "accepts-what-rfc-allows", "control-frame-coalesced")
+	if kind == 0 {
+		pongs := 0
+		for _, w := range ep.fake.writes {
+			f := verifDecodeFrame(w)
+			if f.ok && f.opcode == int(PongMessage) {
+				pongs++
+				verifAssertD(len(f.payload) == len(payload) && verifEqBytes(f.payload, payload), "pong-carries-ping-payload", "coalesced")
+			}
+		}
+		verifAssertD(pongs == 1, "ping-answered-by-one-pong", "coalesced")
+	}
+	want := "xyz"
+	if inFragment {
+		want = "abxyz"
+	}
+	verifAssertD(len(ep.msgs) == 1 && string(ep.msgs[0].data) == want, "following-message-delivered", "coalesced")
+	verifAssert(false, "witness")
+}
